@@ -17,8 +17,11 @@ RULE = ('generated LALR grammars (nullable starts, ignored terminals, shaping fe
 ASSUMPTIONS = ['main phases: terminals are prefix-free fixed strings (class S of the design): tokenisation of a snippet equals tokenisation inside the full text, so the property holds to the letter',
                'class R phase (regexp/keyword terminals, hand-written skeleton grammars): maximal munch on the longer text legitimately differs from lexing the snippet alone, so the expectation is rebuilt from the interactive parser API (longest token prefix from each start after which the parser can finish)']
 
-O = gramgen.Opts(terms='tok', max_rules=4, shaping=True, ignore=True, acyclic=True)
-O_NN = gramgen.Opts(terms='tok', max_rules=3, shaping=True, ignore=True, acyclic=True, nonnull=True)
+from vlib.gramgen import TOK_SETS
+# some token sets contain a newline terminal, so that matches span lines and a later match can start on the line where one ended
+NL_SETS = TOK_SETS + [['a', '\n', 'b', 'c'], ['x', '\n', 'yy', 'z'], ['\n', 'ab', 'b', 'c']]
+O = gramgen.Opts(terms='tok', max_rules=4, shaping=True, ignore=True, acyclic=True, tok_sets=NL_SETS)
+O_NN = gramgen.Opts(terms='tok', max_rules=3, shaping=True, ignore=True, acyclic=True, nonnull=True, tok_sets=NL_SETS)
 
 
 def norm(t, shift=0, buf=None):
